@@ -473,6 +473,18 @@ pub trait BackendTransaction {
                         return Err(OperationError::InvalidState);
                     };
                     let (inter, fp) = self.filter2idl(f_in, thres)?;
+                    // A partial result is only a superset of the entries that really match
+                    // the inner term (substring trigraphs, presence index standing in for an
+                    // ordering index). Subtracting it would also remove entries that do NOT
+                    // match the inner term, so subtract nothing and leave the decision to the
+                    // in-memory filter test - the result stays partial.
+                    let inter = match inter {
+                        IdList::Partial(_) => IdList::Partial(IDLBitRange::new()),
+                        IdList::PartialThreshold(_) => {
+                            IdList::PartialThreshold(IDLBitRange::new())
+                        }
+                        exact => exact,
+                    };
                     // It's an and not, so we need to wrap the plan accordingly.
                     plan.push(FilterPlan::AndNot(Box::new(fp)));
                     cand_idl = match (cand_idl, inter) {
